@@ -82,6 +82,8 @@ fn main() {
         "steps" => drivers::arrival::run_steps(&mut ctx),
         "cost" => drivers::cost::run_cost(&mut ctx),
         "cost_trace" => drivers::cost::run_cost_trace(&mut ctx),
+        "rta" => drivers::rta::run_rta(&mut ctx),
+        "search" => drivers::rta::run_search(&mut ctx),
         "demand" => drivers::cost::run_demand(&mut ctx),
         d => {
             eprintln!("unknown driver {}", d);
